@@ -269,7 +269,7 @@ func ruleC09_4(c *Ctx) {
 		ok := false
 		c.P.TraceBack(args[0], TraceOpts{NoParams: true, NoHeapFields: true}, func(v ssa.Value, _ []int) bool {
 			if u, isU := v.(*ssa.UnOp); isU {
-				if fa, isFA := u.X.(*ssa.FieldAddr); isFA && isPtrToNamed(fa.X.Type(), c.A.RefT) && fieldName(fa.X.Type(), fa.Field) == "ResponseID" {
+				if fa, isFA := u.X.(*ssa.FieldAddr); isFA && c.An.IsRefIDField(fa) {
 					ok = true
 					return false
 				}
@@ -298,7 +298,7 @@ func ruleC09_4(c *Ctx) {
 	var idStores []ssa.Value
 	instrsOf(sr, func(in ssa.Instruction) {
 		if s, ok := in.(*ssa.Store); ok {
-			if fa, ok := s.Addr.(*ssa.FieldAddr); ok && isPtrToNamed(fa.X.Type(), c.A.RefT) && fieldName(fa.X.Type(), fa.Field) == "ResponseID" {
+			if fa, ok := s.Addr.(*ssa.FieldAddr); ok && c.An.IsRefIDField(fa) {
 				idStores = append(idStores, s.Val)
 			}
 		}
